@@ -1,8 +1,8 @@
 (* C14 — Analytic functions are sequential per partition and isolated across partitions.
    Only statements, each closed by [exact]; proofs live in Proofs/Analytic*.v. *)
 From Coq Require Import Lia.
-From SV Require Import Model.Analytic Spec.AnalyticSpec Proofs.AnalyticSeq Proofs.AnalyticKey Proofs.AnalyticEngine
-  Proofs.AnalyticQuery.
+From SV Require Import Model.Analytic Model.AnalyticMulti Spec.AnalyticSpec Proofs.AnalyticSeq Proofs.AnalyticKey
+  Proofs.AnalyticEngine Proofs.AnalyticQuery Proofs.AnalyticField Proofs.AnalyticMulti Proofs.AnalyticGated.
 
 (* analytic_seq: lag / latest / had_changed / changed_col / acc_sum,count,avg,min,max -- for every call whose
    configuring arguments (offset, default, ignoreNull) are literals and for EVERY history of counted rows of a
@@ -92,4 +92,142 @@ Example C14_example :
 Proof.
   split; [reflexivity|]. cbv zeta. split; [vm_compute; lia|]. split; [vm_compute; reflexivity|].
   vm_compute. intros [H|[H|[]]]; discriminate.
+Qed.
+
+(* ======================================================================================================
+   Select items as a whole, several items per query, analytic calls in WHERE  (second family)
+   ====================================================================================================== *)
+
+(* field_seq: EVERY kind of select item - a single call, the wrappers v - f(..) and f(..) - g(..), any + - * tree
+   over several calls / columns / literals (AKExpr), changed_cols(prefix, ign, c1..cn) and had_changed(ign, * ) - is,
+   as a state machine over the counted rows of a partition, the declarative function of the earlier rows: the
+   wrapper's arithmetic over what EACH call returns by its own definition; per column "changed from the most recent
+   retained value"; "some column differs from its baseline, looked up by name".  Rows are maps (distinct column
+   names).  [sql] selects the arithmetic (false = the code's, true = NULL-propagating sums): the statement does
+   not depend on it. *)
+Theorem C14_field_seq : forall sql k h, an_fkind_wf k = true -> Forall row_ok h ->
+  sm_run (an_field_apply_g sql k) (an_field_init k) h = map_prefix (an_field_spec_g sql k) h.
+Proof. exact field_seq. Qed.
+Print Assumptions C14_field_seq.
+
+(* every call of an item advances its own state on every row, whatever the other calls return: the i-th value
+   handed to the wrapper is the value of the i-th call's machine run on its own ... *)
+Theorem C14_calls_independent : forall h cs ss i c s,
+  length cs = length ss -> nth_error cs i = Some c -> nth_error ss i = Some s ->
+  map (fun vs => nth_error vs i) (calls_run cs ss h) = map Some (sm_run (an_call_apply c) s h).
+Proof. exact calls_independent. Qed.
+Print Assumptions C14_calls_independent.
+
+(* ... and the item's value on a row is the wrapper's arithmetic over the last values of its calls, each run ALONE
+   from its initial state over the same rows (a call returning NULL, which makes v - lag(v) NULL, stops nothing) *)
+Theorem C14_item_calls_alone : forall sql cs w h, forallb an_call_wf cs = true ->
+  sm_run (an_field_apply_g sql (AKExpr cs w)) (an_field_init (AKExpr cs w)) h =
+  map_prefix (fun earlier r =>
+                an_weval sql w (map (fun c => last (sm_run (an_call_apply c) (an_new_state (ca_fn c)) (earlier ++ [r]))
+                                                   (ARV AVNull)) cs) r) h.
+Proof. exact item_calls_alone. Qed.
+Print Assumptions C14_item_calls_alone.
+
+(* the code's arithmetic is not NULL-propagating for a parenthesis-free sum: lag(v) + acc_sum(v) on a first row
+   with v = 3 is the string "3" (F50); NULL under the intended arithmetic, and NULL in the code for - *)
+Theorem C14_wrapper_sum_null_asis_refuted :
+  let cs := [ {| ca_fn := AFLag; ca_args := [AEField colv] |}; {| ca_fn := AFAcc AKSum; ca_args := [AEField colv] |} ] in
+  let h := [[(colv, AVInt 3)]] in
+  sm_run (an_field_apply_g false (AKExpr cs (WBin WAdd (WSelf 0) (WSelf 1)))) (AFSCalls (map (fun c => an_new_state (ca_fn c)) cs)) h
+    = [AOV (AVStr [51]%N)] /\
+  sm_run (an_field_apply_g true (AKExpr cs (WBin WAdd (WSelf 0) (WSelf 1)))) (AFSCalls (map (fun c => an_new_state (ca_fn c)) cs)) h
+    = [AOV AVNull] /\
+  sm_run (an_field_apply_g false (AKExpr cs (WBin WSub (WSelf 0) (WSelf 1)))) (AFSCalls (map (fun c => an_new_state (ca_fn c)) cs)) h
+    = [AOV AVNull].
+Proof. exact wrapper_sum_null_asis_refuted. Qed.
+Print Assumptions C14_wrapper_sum_null_asis_refuted.
+
+(* the engine of stream/analytic.go within the cap, for every state machine plugged into it and every
+   interleaving of partitions: the result for a row is the machine applied to the earlier rows of ITS partition
+   that passed WHEN; a row failing WHEN repeats the partition's last result (the default when there is none) *)
+Theorem C14_engine_gated :
+  forall (St Out : Type) (init : St) (apply : St -> arow -> St * Out) (dflt : Out)
+         (gate : arow -> bool) (pkey : arow -> bytes) (cap : nat) (h : list arow),
+  length (nodup bytes_dec (ckeys gate pkey h)) <= cap ->
+  snd (an_eng_run St Out init apply dflt gate pkey true cap (an_eng0 _ _) h) =
+  map_prefix (gspec St Out init apply dflt gate pkey) h.
+Proof. exact engine_gated. Qed.
+Print Assumptions C14_engine_gated.
+
+(* one select item (or WHERE call) through its engine = its gated sequential specification, per partition, under
+   any interleaving, while its partitions stay within the cap (always, when it has no PARTITION BY) *)
+Theorem C14_frun_gated : forall cap f h, an_fkind_wf (af_kind f) = true -> Forall row_ok h -> field_room cap f h ->
+  snd (an_frun cap f (an_eng0 _ _) h) = map_prefix (an_gated_spec f) h.
+Proof. exact frun_gated. Qed.
+Print Assumptions C14_frun_gated.
+
+(* several items + WHERE: when WHERE holds an analytic call every engine - each select item and the WHERE call -
+   runs over EVERY row (also the rows the filter then removes) and the filter only masks the rows of results;
+   with an analytic-free WHERE the engines run over the passing rows.  [item_rows] is built column by column from
+   the run of each item's engine alone (C14_item_column) *)
+Theorem C14_mwhere_order : forall q h,
+  an_msync q h =
+  match mq_wan q with
+  | Some (wf, tst) =>
+      mask (fun r w => an_mcolpass q r && an_wtest tst w) h
+           (snd (an_frun (mq_cap q) wf (an_eng0 _ _) h))
+           (item_rows (mq_cap q) (mq_items q) (m_eng0s q) h)
+  | None =>
+      spread_g (an_mcolpass q) h
+               (item_rows (mq_cap q) (mq_items q) (m_eng0s q) (filter (an_mcolpass q) h))
+  end.
+Proof. exact mwhere_order. Qed.
+Print Assumptions C14_mwhere_order.
+
+Theorem C14_item_column : forall cap h fs es j f e,
+  nth_error fs j = Some f -> nth_error es j = Some e ->
+  map (fun row => nth_error row j) (item_rows cap fs es h) = map Some (snd (an_frun cap f e h)).
+Proof. exact item_column. Qed.
+Print Assumptions C14_item_column.
+
+Theorem C14_msync_async_same : forall q sch h, an_masync q sch h [] (an_m0 q) = an_msync q h.
+Proof. exact msync_async_same. Qed.
+Print Assumptions C14_msync_async_same.
+
+(* the model of EmitSync IS the declarative specification the driver judges the real output with
+   (Spec/AnalyticSpec.v an_mspec_query / an_spec_query), for every query of the two families, every history of
+   rows and every interleaving of partitions within the cap (an_mwithin_cap / an_within_cap are the very tests
+   the driver applies before it uses the specification) *)
+Theorem C14_msync_spec : forall q h, mquery_wf q = true -> Forall row_ok h -> an_mwithin_cap q h = true ->
+  an_msync q h = an_mspec_query false q h.
+Proof. exact msync_spec. Qed.
+Print Assumptions C14_msync_spec.
+
+Theorem C14_sync_spec : forall q h, query_wf q = true -> Forall row_ok h -> an_within_cap q h = true ->
+  an_sync q h = an_spec_query q h.
+Proof. exact sync_spec. Qed.
+Print Assumptions C14_sync_spec.
+
+(* non-vacuity: SELECT lag(v) + acc_sum(v) OVER (PARTITION BY p) AS a0, changed_cols('c_', false, v, w) ... WHERE
+   acc_count(v) > 0, two partitions interleaved, cap 2: the hypotheses of C14_msync_spec hold and the result is not
+   trivial: row 1 is filtered out (count 1) but still counted by every engine, row 2 - the first row of partition
+   "b" - shows F50's string "4", row 3 is lag 3 + sum 8 of partition "a") *)
+Example C14_example_items :
+  let colp := [112]%N in let colw := [119]%N in
+  let lagv := {| ca_fn := AFLag; ca_args := [AEField colv] |} in
+  let sumv := {| ca_fn := AFAcc AKSum; ca_args := [AEField colv] |} in
+  let cntv := {| ca_fn := AFAcc AKCount; ca_args := [AEField colv] |} in
+  let it0 := {| af_kind := AKExpr [lagv; sumv] (WBin WAdd (WSelf 0) (WSelf 1)); af_part := [colp]; af_when := None |} in
+  let it1 := {| af_kind := AKCols [99; 95]%N (AEBool false) [colv; colw]; af_part := []; af_when := None |} in
+  let wf := {| af_kind := AKSingle cntv; af_part := []; af_when := None |} in
+  let q := {| mq_items := [it0; it1]; mq_wcol := None; mq_wan := Some (wf, AWTGt 1%Z); mq_cap := 2 |} in
+  let ra x := [(colp, AVStr [97]%N); (colv, AVInt x)] in
+  let rb x := [(colp, AVStr [98]%N); (colv, AVInt x)] in
+  let h := [ra 3%Z; rb 4%Z; ra 5%Z] in
+  mquery_wf q = true /\ Forall row_ok h /\ an_mwithin_cap q h = true /\
+  an_msync q h = [None;
+                  Some [AOV (AVStr [52]%N); AOMap [([99; 95; 118]%N, AVInt 4%Z)]];
+                  Some [AOV (AVFlt 11%Z); AOMap [([99; 95; 118]%N, AVInt 5%Z)]]].
+Proof.
+  cbv zeta. split; [reflexivity|]. split.
+  - assert (Hrow : forall p x, row_ok [([112]%N, p); (colv, x)]).
+    { intros p x. unfold row_ok. simpl. constructor; [intros [H|[]]; discriminate|].
+      constructor; [intros []|constructor]. }
+    repeat (constructor; [apply Hrow|]). constructor.
+  - split; vm_compute; reflexivity.
 Qed.
